@@ -68,7 +68,7 @@ def replay_both(harness, values, features=()):
     return {"dev": dev, "release": rel, "reproduced": reproduced}
 
 
-def run_files(files, entry, profile="dev", compressed=False):
+def run_files(files, entry, profile="dev", compressed=False, fail_lookup=None):
     """Write `files` ({relative name: text}) to a scratch directory and compile `entry` from disk."""
     import shutil
     import tempfile
@@ -81,7 +81,11 @@ def run_files(files, entry, profile="dev", compressed=False):
             with open(p, "w") as f:
                 f.write(text)
         try:
-            p = subprocess.run([exe, "--scss-file-compressed" if compressed else "--scss-file", os.path.join(d, entry)], capture_output=True, text=True, timeout=120)
+            if fail_lookup is not None:
+                cmd = [exe, "--scss-fail-lookup", d, entry, str(fail_lookup)]
+            else:
+                cmd = [exe, "--scss-file-compressed" if compressed else "--scss-file", os.path.join(d, entry)]
+            p = subprocess.run(cmd, capture_output=True, text=True, timeout=120)
         except subprocess.TimeoutExpired:
             return {"outcome": "crash", "message": "timeout"}
         for line in p.stdout.split("\n"):
